@@ -193,6 +193,53 @@ def r_point(ctx: Ctx, model, tr=None):
                               "henry": "L0/P0*p"}[expect]), nontrivial_key=("point", "edge", str(qp)))
 
 
+def r_array(ctx: Ctx, model):
+    """arrays and scalars alike: spreading_pressure([p0, p1]) of every closed-form model is, element by element, what the scalar calls
+    give (IAST and the wrappers hand whole pressure vectors to it) - interpreted at one exact parameter point, array algebra on
+    symbolic elements (ndsym)"""
+    import numpy as _np
+    import sympy as sp
+    from ..absint import Obj
+    from ..domain import make_interp
+    from ..ndsym import install_nd, to_np
+    ctx.rule("S-closed (arrays) [exact point]: spreading_pressure(array of two pressures) == [spreading_pressure(p) for p in array] for "
+             "the closed-form models")
+    R = sp.Rational
+    n = 0
+    for name in CLOSED:
+        mod = model.modules.get(f"pygaps.modelling.{name.lower()}")
+        ci = mod.classes.get(name) if mod else None
+        if ci is None:
+            raise AnalysisError(f"anchor missing: model class {name}")
+        I = make_interp(model)
+        install_nd(I)
+        pn = I.class_const(ci, ci.find_assign("param_names")[1])
+        pn = (pn,) if isinstance(pn, str) else tuple(pn)
+        vals = {"n_m": R(5), "n_m1": R(3), "n_m2": R(2), "n_m3": R(1), "C": R(50), "N": R(1, 10), "K": R(3, 4) if name == "GAB" else R(2),
+                "K1": R(2), "K2": R(1, 3), "K3": R(1, 5), "Ka": R(2), "Kb": R(1, 3), "tht": R(1, 2), "m": R(1, 2), "t": R(1, 2)}
+        params = {k_: vals.get(k_, R(7, 5)) for k_ in pn}
+        mk_self = lambda: Obj(cls=ci, label="model", attrs={"params": dict(params), "name": name})
+        fs = ci.find_method("spreading_pressure")
+        pts = [R(1, 20), R(1, 2)]
+        scal = []
+        for pv in pts:
+            o = I.explore(lambda I: I.call_func(fs, [pv], {}, None, self_obj=mk_self()))
+            if len(o) != 1 or o[0].kind != "ok":
+                raise AnalysisError(f"{name}.spreading_pressure({pv}) at the exact point cannot be evaluated: {o[:1]}")
+            scal.append(sp.simplify(sp.sympify(o[0].value)))
+        o = I.explore(lambda I: I.call_func(fs, [_np.array(pts, dtype=object)], {}, None, self_obj=mk_self()))
+        val = to_np(I, o[0].value) if len(o) == 1 and o[0].kind == "ok" else None
+        got = [sp.simplify(sp.sympify(x)) for x in val] if isinstance(val, _np.ndarray) and val.shape == (2,) else \
+            (f"raises {o[0].exc.name}" if o and o[0].kind != "ok" else repr(o[0].value) if o else "no outcome")
+        n += 1
+        ok = isinstance(got, list) and all(sp.simplify(a_ - b_) == 0 for a_, b_ in zip(got, scal))
+        ctx.ob(ok, Finding("C11.S-closed", fs.where, f"{name}|array",
+                           f"{name} (parameters {dict((k_, str(v)) for k_, v in params.items())}): spreading_pressure([1/20, 1/2]) gives {got} but the scalar "
+                           f"calls give {scal}: a vector of pressures must give the vector of spreading pressures"),
+               nontrivial_key=("array", name))
+    ctx.floor("closed-form spreading pressures evaluated on arrays", n, 6)
+
+
 def run(ctx: Ctx):
     from ..sites import model_methods_stateless as _mms
     _mms(ctx, load(ctx.root), "C11", "S-fresh")
@@ -205,6 +252,7 @@ def run(ctx: Ctx):
     ctx.assume("sympy's normalisation / integration of rational functions is sound; scipy quad integrates its integrand")
     r_models(ctx, model, tr)
     r_point(ctx, model, tr)
+    r_array(ctx, model)
     ctx.analysed["models"] = CLOSED + QUAD
     ctx.rule("S-fresh (point isotherms): the interpolated loading spreading_pressure_at uses for its last partial segment comes from an "
              "interpolator built for the requested branch / kind / fill value, whatever an earlier query left in the cache (cache discipline of "
